@@ -18,6 +18,8 @@ pub enum Profile {
     Serde,
     Value,
     Misuse,
+    /// like `core`, but every history starts from a random tree of 18-60 nodes (deep and wide subtrees)
+    Big,
 }
 impl Profile {
     pub fn parse(s: &str) -> Result<Profile, String> {
@@ -29,6 +31,7 @@ impl Profile {
             "serde" => Profile::Serde,
             "value" => Profile::Value,
             "misuse" => Profile::Misuse,
+            "big" => Profile::Big,
             _ => return Err(format!("unknown profile {}", s)),
         })
     }
@@ -411,6 +414,11 @@ fn weights(p: Profile) -> Vec<(&'static str, f64)> {
     let (mut fork, mut swap, mut clear, mut reserve) = (1.0, 1.0, 0.5, 0.5);
     match p {
         Profile::Print => clear = 0.0,
+        // clone / clone_from targets are then read through the iterators (from both ends)
+        Profile::Iters => {
+            fork = 3.0;
+            swap = 3.0;
+        }
         Profile::Serde => {
             swap = 3.0;
             w.push(("rt", 4.0));
@@ -423,7 +431,11 @@ fn weights(p: Profile) -> Vec<(&'static str, f64)> {
         }
         _ => {}
     }
-    w.extend([("new", 14.0), ("appv", 8.0), ("det", 6.0), ("rem", 8.0), ("rst", 5.0), ("wr", 3.0)]);
+    if p == Profile::Big {
+        w.extend([("new", 6.0), ("appv", 10.0), ("det", 6.0), ("rem", 10.0), ("rst", 12.0), ("wr", 1.0)]);
+    } else {
+        w.extend([("new", 14.0), ("appv", 8.0), ("det", 6.0), ("rem", 8.0), ("rst", 5.0), ("wr", 3.0)]);
+    }
     w.extend(INSERTS.iter().map(|&i| (i, 6.0)));
     w.extend([("fork", fork), ("swap", swap), ("clear", clear), ("reserve", reserve)]);
     w
@@ -515,6 +527,19 @@ impl<H: Hooks> Gen<H> {
                 self.next_v = self.next_v.max(x.saturating_add(1));
             }
             self.emit(&cmd)?;
+        }
+        if self.cfg.profile == Profile::Big && self.cfg.prefix.is_empty() {
+            // prelude: a random tree; parents are drawn with a bias towards recent nodes (depth) and towards
+            // a few hubs (width), so that subtrees of 17+ nodes with nested inner nodes are common
+            let n = 18 + self.rng.below(43);
+            let v0 = self.fresh_v();
+            self.emit(&format!("new {}", v0))?;
+            for i in 1..n {
+                let p = if self.rng.chance(0.45) { i - 1 - self.rng.below(i.min(3)) } else if self.rng.chance(0.5) { self.rng.below(i.min(4)) } else { self.rng.below(i) };
+                let pv = self.fresh_v();
+                self.emit(&format!("appv {} {}", p, pv))?;
+            }
+            self.emit("qa")?;
         }
         let every = if self.cfg.profile == Profile::Iters { 4.0 } else { 8.0 };
         let mut steps = 0;
@@ -697,6 +722,12 @@ impl<H: Hooks> Gen<H> {
         if matches!(op, "fork" | "swap") || (self.cfg.profile == Profile::Value && matches!(op, "clear" | "reserve")) {
             self.emit("qeq")?;
         }
+        // a copy made by clone / clone_from is looked at through every iterator (both ends) right away
+        if op == "fork" && self.cfg.profile == Profile::Iters && self.ex.alt.is_some() {
+            self.mutate("swap")?;
+            self.observe(false)?;
+            self.mutate("swap")?;
+        }
         Ok(())
     }
 
@@ -737,6 +768,11 @@ impl<H: Hooks> Gen<H> {
                 for &h in &v.live {
                     self.emit(&format!("qi {}", h))?;
                 }
+                for (k, &h) in v.live.iter().enumerate() {
+                    if k < 6 || self.rng.chance(0.2) {
+                        self.emit(&format!("qx {}", h))?;
+                    }
+                }
                 if !v.live.is_empty() {
                     for _ in 0..3 {
                         let h = self.rng.pick(&v.live);
@@ -760,6 +796,9 @@ impl<H: Hooks> Gen<H> {
                     let which = self.rng.pick(&["ch", "prec", "foll"]);
                     self.qd(h, which)?;
                 }
+                if let Some(h) = self.obs_handle(&v) {
+                    self.emit(&format!("qx {}", h))?;
+                }
             }
         }
         if fin && self.cfg.profile == Profile::Print {
@@ -774,8 +813,18 @@ impl<H: Hooks> Gen<H> {
             }
             for x in vals {
                 for mode in 0..4 {
-                    let chunks: Vec<String> =
-                        self.rendering().iter().map(|c| c.bytes().map(|b| format!("{:02x}", b)).collect()).collect();
+                    let mut chunks: Vec<String> = Vec::new();
+                    for c in self.rendering() {
+                        // some chunks are handed to the formatter one character at a time (write_char)
+                        if !c.is_empty() && self.rng.chance(0.3) {
+                            for ch in c.chars() {
+                                let mut b = [0u8; 4];
+                                chunks.push(format!("w{}", ch.encode_utf8(&mut b).bytes().map(|x| format!("{:02x}", x)).collect::<String>()));
+                            }
+                        } else {
+                            chunks.push(c.bytes().map(|b| format!("{:02x}", b)).collect());
+                        }
+                    }
                     self.emit(&format!("rend {} {} {}", x, mode, chunks.join(",")))?;
                 }
             }
